@@ -161,7 +161,7 @@ def ast_family(tier: str) -> List[Tuple[str, Callable[[], L.Formula]]]:
         return [
             smt(z3_eq(v.to_smt(), z3.StringVal("a")), v),
             L.StructuralPredicateFormula(BEFORE_PREDICATE, a, b),
-            smt(z3.Length(w.to_smt()) > z3.IntVal(1), w),
+            smt(z3_eq(w.to_smt(), z3.StringVal("b")), w),
             L.StructuralPredicateFormula(SAME_POSITION_PREDICATE, v, w),
             smt(z3.PrefixOf(v.to_smt(), w.to_smt()), v, w),
             L.SemanticPredicateFormula(COUNT_PREDICATE, a, "<var>", "2"),
@@ -223,11 +223,20 @@ def ast_family(tier: str) -> List[Tuple[str, Callable[[], L.Formula]]]:
         def p3(i=i, j=j):   # renamed block below another quantifier that re-uses a name
             z = L.BoundVariable(pairs[i][1], "<var>")
             return L.ExistsFormula(z, start, L.ConjunctiveFormula(block(*pairs[i], "A", "E", False), block(*pairs[j], "A", "E", True)))
+        def p4(i=i, j=j, both=True):   # the renamed block binds its second name in a match expression
+            n1, n2 = pairs[j]
+            x, y = L.BoundVariable(n1, "<assgn>"), L.BoundVariable(n2, "<var>")
+            body = smt(z3.PrefixOf(y.to_smt(), x.to_smt()), x, y) if both else smt(z3_eq(x.to_smt(), z3.StringVal("a := 1")), x)
+            blk = L.ForallFormula(x, start, body, L.BindExpression(y, " := ", "<rhs>"))
+            first = block(*pairs[i], "A", "E", False)
+            return L.ConjunctiveFormula(first, blk)
         tag = "%s-%s" % ("".join(pairs[i]), "".join(pairs[j]))
+        out.append(("name-clash/mexpr-both/" + tag, p4))
+        out.append(("name-clash/mexpr-one/" + tag, lambda i=i, j=j: p4(i, j, False)))
         out.append(("name-clash/and/" + tag, p1))
         out.append(("name-clash/or/" + tag, p2))
-        if tier != "quick" or (i + j) % 3 == 0:
-            out.append(("name-clash/nested/" + tag, p3))
+        # (nested re-binding of the SAME variable - p3 - is not used: ISLa's well-formedness forbids it and the real
+        #  evaluate(), which judges witnesses, has no defined behaviour under shadowing)
     rot_n = 2 if tier == "quick" else 8
     for name, mk in shapes:
         for rot in range(rot_n):
@@ -336,15 +345,16 @@ def check_equiv(enc: "fol.Encoder", f1: L.Formula, f2: L.Formula, negated: bool,
                 out["z3new"] = "error: " + rr.get("raw", "")[-120:]
         out["verdict"] = "discharged"
         return out
-    if r == "sat":
-        w = find_witness(f1, f2, negated, gname=gname)
-        if w is None:
-            out.update(verdict="inconclusive", reason="FOL-inequivalent but no concrete witness tree found "
-                       "(abstraction has no tree axioms)")
-        else:
-            out.update(verdict="violated", witness=w)
-        return out
-    out.update(verdict="inconclusive", reason="z3: " + r)
+    # not proved equivalent (sat, or unknown within the time limit): look for a concrete tree on which the real
+    # evaluate() disagrees - such a tree is a genuine violation whatever the solver said
+    w = find_witness(f1, f2, negated, gname=gname)
+    if w is not None:
+        out.update(verdict="violated", witness=w)
+    elif r == "sat":
+        out.update(verdict="inconclusive", reason="FOL-inequivalent but no concrete witness tree found "
+                   "(abstraction has no tree axioms)")
+    else:
+        out.update(verdict="inconclusive", reason="z3: " + r)
     return out
 
 
